@@ -405,3 +405,152 @@ func ruleInterfaceFieldsSet(p *Program, r *Report) {
 }
 
 func init() { register("C10", Rule{"R10h", ruleInterfaceFieldsSet}) }
+
+// R10i: sizes taken from user numbers are checked before they size an allocation.  `make([]T, n)` / `make([]T, 0, n)`
+// panics for a negative n (and for one too large); in the standard library natives n is `int(<number the program
+// supplied>)`.  Every make whose length or capacity derives from a float→int conversion must be dominated by a
+// comparison of that size (or of the converted number) with a bound.
+func ruleAllocationSizesChecked(p *Program, r *Report) {
+	r.Begin("R10i", "allocation sizes from program-supplied numbers are range-checked: in packages syntax and rel every make (slice, map, chan) and every strings.Repeat / bytes.Repeat whose size operand derives from a float→integer conversion (in the function or in a variable it captured) is dominated by a relational comparison involving that value (a sign or bound test); an unchecked negative count is `makeslice: len out of range` / `negative Repeat count`, a crash instead of an error", 1)
+	defer r.End()
+	n := 0
+	for _, fn := range p.RepoFns {
+		pp := PkgPathOf(fn)
+		if (pp != Mod+"/syntax" && pp != Mod+"/rel") || fn.Blocks == nil {
+			continue
+		}
+		ord := 0
+		isF2I := func(c *ssa.Convert) bool {
+			from, ok1 := c.X.Type().Underlying().(*types.Basic)
+			to, ok2 := c.Type().Underlying().(*types.Basic)
+			return ok1 && ok2 && from.Info()&types.IsFloat != 0 && to.Info()&types.IsInteger != 0
+		}
+		// the root of a size: a float→int conversion here, or a captured variable that holds one
+		rootOf := func(sz ssa.Value) (root ssa.Value, where token.Pos) {
+			DependsOn(sz, func(v ssa.Value) bool {
+				switch x := v.(type) {
+				case *ssa.Convert:
+					if isF2I(x) {
+						root, where = x, x.Pos()
+						return true
+					}
+				case *ssa.FreeVar:
+					b := bindingOf(x)
+					for i := 0; i < 4; i++ {
+						if fv2, ok := b.(*ssa.FreeVar); ok {
+							b = bindingOf(fv2)
+						}
+					}
+					if al, ok := b.(*ssa.Alloc); ok {
+						for _, ref := range *al.Referrers() {
+							if st, ok := ref.(*ssa.Store); ok && st.Addr == ssa.Value(al) {
+								if DependsOn(st.Val, func(w ssa.Value) bool {
+									c, ok := w.(*ssa.Convert)
+									if ok && isF2I(c) {
+										where = c.Pos()
+									}
+									return ok && isF2I(c)
+								}) {
+									root = x
+									return true
+								}
+							}
+						}
+					} else if b != nil {
+						if DependsOn(b, func(w ssa.Value) bool {
+							c, ok := w.(*ssa.Convert)
+							if ok && isF2I(c) {
+								where = c.Pos()
+							}
+							return ok && isF2I(c)
+						}) {
+							root = x
+							return true
+						}
+					}
+				}
+				return false
+			})
+			return
+		}
+		ForEachInstr(fn, func(ins ssa.Instruction) {
+			var sizes []ssa.Value
+			what := "make"
+			switch x := ins.(type) {
+			case *ssa.MakeSlice:
+				sizes = []ssa.Value{x.Len, x.Cap}
+			case *ssa.MakeMap:
+				if x.Reserve != nil {
+					sizes = []ssa.Value{x.Reserve}
+				}
+			case *ssa.MakeChan:
+				sizes = []ssa.Value{x.Size}
+			case *ssa.Call:
+				nm := CalleeName(&x.Call)
+				if (nm == "strings.Repeat" || nm == "bytes.Repeat") && len(x.Call.Args) == 2 {
+					sizes = []ssa.Value{x.Call.Args[1]}
+					what = nm
+				}
+			default:
+				return
+			}
+			for _, sz := range sizes {
+				if sz == nil {
+					continue
+				}
+				root, where := rootOf(sz)
+				if root == nil {
+					continue
+				}
+				n++
+				ord++
+				top := fn
+				for top.Parent() != nil {
+					top = top.Parent()
+				}
+				r.Fn(FnName(top))
+				fromRoot := func(w ssa.Value) bool {
+					if w == root {
+						return true
+					}
+					if c, ok := root.(*ssa.Convert); ok && w == c.X {
+						return true
+					}
+					return false
+				}
+				// a dominating branch whose condition compares the size (or the number it came from) with a bound
+				guarded := false
+				blk := ins.Block()
+				for _, d := range fn.Blocks {
+					iff, ok := d.Instrs[len(d.Instrs)-1].(*ssa.If)
+					if !ok || !(d.Dominates(blk) && d != blk) {
+						continue
+					}
+					if DependsOn(iff.Cond, func(v ssa.Value) bool {
+						bo, ok := v.(*ssa.BinOp)
+						if !ok {
+							return false
+						}
+						switch bo.Op {
+						case token.LSS, token.LEQ, token.GTR, token.GEQ:
+							for _, side := range []ssa.Value{bo.X, bo.Y} {
+								if DependsOn(side, fromRoot) {
+									return true
+								}
+							}
+						}
+						return false
+					}) {
+						guarded = true
+					}
+				}
+				r.Check(guarded, fmt.Sprintf("size@%s~%d", FnName(top), ord), "size compared with a bound before use", fmt.Sprintf("%s hands %s a size derived from a number the program supplied (converted at %s) without any range test on it: a negative or huge count panics there instead of producing an error or an empty result", FnName(fn), what, p.Pos(where)), ins.Pos())
+			}
+		})
+	}
+	if n == 0 {
+		r.Undecided("sizes", "no size derived from a converted number found (//seq.repeat is expected)", 0)
+	}
+}
+
+func init() { register("C10", Rule{"R10i", ruleAllocationSizesChecked}) }
